@@ -1,8 +1,9 @@
 use super::cursor::{PublishedCursor, PublishedCursorReader, RewindableCursor};
-use std::{
-    cmp::max,
-    sync::atomic::{AtomicBool, AtomicUsize, Ordering},
-};
+#[cfg(grevm_verif)]
+use crate::verif::sync::{AtomicBool, AtomicUsize};
+#[cfg(not(grevm_verif))]
+use std::sync::atomic::{AtomicBool, AtomicUsize};
+use std::{cmp::max, sync::atomic::Ordering};
 
 #[derive(Debug)]
 struct ExecutionFrontier {
